@@ -5,11 +5,11 @@
 # scratch output directory; all three are removed afterwards.  Several of these (and ordinary checks)
 # can run side by side.  Prints the check's tail and "exit=<status>".
 set -u
-P=$(readlink -f "$1"); ID=$2; TIER=${3:-quick}
+if [ "$1" = "-" ]; then P=-; else P=$(readlink -f "$1"); fi; ID=$2; TIER=${3:-quick}       # "-": no change, the tree as it is
 W=$(mktemp -d /tmp/iso-XXXXXX)
 trap 'git -C /repo worktree remove --force "$W/repo" >/dev/null 2>&1; rm -rf "$W"; git -C /repo worktree prune' EXIT
 git -C /repo worktree add --detach "$W/repo" HEAD >/dev/null 2>&1 || { echo "cannot create worktree"; exit 9; }
-(cd "$W/repo" && git apply "$P") || { echo "patch does not apply"; echo "exit=9"; exit 0; }
+if [ "$P" != "-" ]; then (cd "$W/repo" && git apply "$P") || { echo "patch does not apply"; echo "exit=9"; exit 0; }; fi
 mkdir -p "$W/build" "$W/out"
 cp -a /verif/coq "$W/coq"          # C20 regenerates a file in there; compiled files come along
 # the extracted model does not depend on the repository: reuse the binary
